@@ -41,6 +41,8 @@ def fresh_like(I, v, base='hv'):
         return VTuple([fresh_like(I, it, base) for it in v.items])
     if isinstance(v, VNone):
         return v
+    if isinstance(v, z3.ExprRef):
+        return z3.Const(sym.fresh_name(base), v.sort())       # raw ghost term (e.g. a relation kept as an array)
     if isinstance(v, sym.VFrame):
         return sym.VFrame(z3.Const(sym.fresh_name(base), v.t.sort()), v.tag)
     if isinstance(v, sym.VSet):
@@ -52,7 +54,12 @@ def fresh_like(I, v, base='hv'):
 
 
 class LoopSpec:
-    def __init__(self, modifies, invariant, decreases=None, props=(), typed_locals=None, name='loop', entry_ghost=None, defines=None):
+    def __init__(self, modifies, invariant, decreases=None, props=(), typed_locals=None, name='loop', entry_ghost=None, defines=None,
+                 split_facts=None):
+        # split_facts: callables (I, fr, P, m, R) -> [formula]: instances of universally quantified preconditions of the
+        # contract ("for every split S == P ++ [m] ++ R ...") at the split the step case introduces (forall-elimination done
+        # here instead of by the solver; each user names the quantified precondition it instantiates)
+        self.split_facts = split_facts or []
         self.entry_ghost = entry_ghost or {}
         self.defines = defines or {}
         self.modifies = modifies
@@ -149,12 +156,18 @@ class LoopSpec:
             raise PathEnd()
         if which == 1:
             self.havoc(I, fr)
+            tok = I.iter_token(it)
+            if tok is not None and not tok[1].eq(t):
+                raise Unsupported('the list being iterated is in the modifies set of its own loop')
             P = z3.Const(sym.fresh_name('P'), t.sort())
             m = z3.Const(sym.fresh_name('m'), k.sort)
             R = z3.Const(sym.fresh_name('R'), t.sort())
             I.st.assume(t == z3.Concat(P, z3.Unit(m), R))
             if is_range:
                 I.st.assume(m == z3.Length(P))
+            for sfact in self.split_facts:
+                for f in sfact(I, fr, P, m, R):
+                    I.st.assume(f)
             self._assume(I, fr, {'_P': VSeq(P, k), '_S': S, '_R': VSeq(z3.Concat(z3.Unit(m), R), k)})
             I.assign(node.target, k.wrap(m), fr)
             try:
@@ -165,6 +178,7 @@ class LoopSpec:
                 # leaving the loop from an arbitrary iteration: the path continues after the loop (else skipped)
                 I.st.ghost['_broke_at'] = VSeq(P, k)
                 return
+            I.iter_check(tok)
             self._check(I, fr, {'_P': VSeq(z3.Concat(P, z3.Unit(m)), k), '_S': S, '_R': VSeq(R, k)}, 'step')
             raise PathEnd()
         self.havoc(I, fr)
